@@ -2,7 +2,9 @@
 
 R1 decides writer/reader agreement of the two converters on regular languages (all digit strings, release
 lengths 1..4 as slots) and confirms the plumbing of components on a finite domain by interpreting the two
-functions' ASTs; R2 interprets detect_change_type's AST over an exhaustive small domain of version pairs.
+functions' ASTs; R2 interprets detect_change_type's AST (with the module-level constants of its module bound from their ASTs)
+over an exhaustive small domain of version pairs, which includes all pairs with two or three release components growing at once,
+and compares every verdict with "the most significant release component that grew".
 The regular-language toolkit and the abstract string interpreter are imported from props/c32.py.
 
 Model of `packaging.Version` (both interpreters): `release` is the tuple of parsed components; `major`/`minor`/`micro` are
@@ -38,8 +40,13 @@ EXPLANATION = (
     "direction starts from canonical semver N.N.N[-(a|b|rc).N]. Finite part: both functions' ASTs are evaluated (no repo code runs) on all "
     "releases of length 1..4 over {0,7,10} x {final,a0,a4,b1,rc2,rc10} and the round trip must return the normalized original string (string comparison, so a release padded or truncated to three components is a failure even where Version equality would hide it). "
     "R2 (classification): detect_change_type's AST is evaluated on every ordered pair of versions with release length 1..4 over {0,1} and "
-    "pre in {final, rc1, rc2} (8100 pairs, exhaustive for that domain): result 'none' iff the new version is not greater under the PEP 440 "
-    "order, else the name of the first of the three leading components that differs. "
+    "pre in {final, rc1, rc2} (8100 pairs, exhaustive for that domain) and on every ordered pair of 3-component releases over {0,1,3} x {final, rc1} "
+    "(2916 pairs: growth by unequal amounts): result 'none' iff the new version is not greater under the PEP 440 "
+    "order, else the name of the most significant of the three leading release components that grew (new > old). The grids hold every combination of "
+    "the three components growing / staying / shrinking; the pairs in which two or three components grow at once (0.0.0 -> 1.1.1, 1.0.0 -> 1.1.1, 0.0 -> 1.3 ...) "
+    "are counted and floored, because they are the only ones that tell 'most significant grown' from 'last / least significant / largest grown'. "
+    "Module-level constants of dev_cli.versioning that the classifier (or a helper it calls) mentions are bound from their ASTs, so a table-driven "
+    "classifier (`for name, cur, prev in zip(_COMPONENTS, ...)`) is evaluated like the if-ladder; a constant changed in place during the evaluation is an analysis error. "
     "Both interpreters follow module-level helper functions the three functions call, and a local list grown by append/extend in a loop (the statement form of a generator); "
     "any other in-place change of a modelled sequence is refused (analysis error), never ignored. "
     "Not decided: packaging.Version parsing/normalisation (modelled: release tuple, pre label in a/b/rc, trailing zeros insignificant for "
@@ -401,50 +408,95 @@ def finite_roundtrips(funcs: dict[str, ast.AST], consts: dict[str, ast.AST]) -> 
     return fail_p, {"semver": fail_s}, cases
 
 
-def classify_all(fn: ast.AST, funcs: dict[str, ast.AST] | None = None) -> tuple[int, list[str], dict]:
-    ip = Interp(_bind_helpers({}, funcs or {}, [fn]), hooks={"Version": _model_version})
+def _module_env(consts: dict[str, ast.AST] | None, used: set[str]) -> dict:
+    """Values of the module-level constants (`NAME = <small pure expression>`) of the analysed module that the evaluated
+    functions mention, computed by absint on the constants' ASTs.  A constant absint cannot evaluate stays unbound (its use
+    is then an analysis error, not a guess)."""
+    env: dict = {}
+    todo = set(used)
+    for k, v in (consts or {}).items():  # source order; a constant built from earlier constants pulls them in
+        todo |= {x.id for x in ast.walk(v) if isinstance(x, ast.Name)} if k in todo else set()
+    for k, v in (consts or {}).items():
+        if k not in todo:
+            continue
+        try:
+            env[k] = Interp(env).eval(v, dict(env))
+        except (IUnsupported, Raised, Exception):
+            continue
+    return env
+
+
+_NAMES = ("major", "minor", "patch")
+
+
+def classify_all(fn: ast.AST, funcs: dict[str, ast.AST] | None = None, consts: dict[str, ast.AST] | None = None) -> tuple[int, list[str], dict, int]:
+    """Evaluate the classifier's AST on the whole grid of ordered version pairs and compare each verdict with the statement:
+    'none' iff the new version is not greater; otherwise the name of the MOST SIGNIFICANT of the three leading release
+    components that GREW (new > old).  The grid {0,1}^n (n = 1..4) x {final, rc1, rc2} holds every combination of the three
+    components growing / staying / shrinking, in particular all pairs where two or three components grow at once
+    (0.0.0 -> 1.1.1, 0.0 -> 1.1, 1.0.0 -> 1.1.1 ...), each also with pre-release markers on either side; a second grid of
+    3-component releases over {0,1,3} adds growth by unequal amounts (0.0.0 -> 1.3.0), so that a classifier that picks the
+    component by the *size* of its growth, or the *last* / *least* significant grown one, disagrees on some pair."""
+    roots = [fn] + _reachable_helpers(funcs or {}, [fn])
+    used = {x.id for f in roots for x in ast.walk(f) if isinstance(x, ast.Name)}
+    # module-level constants of the analysed module (`_COMPONENTS = ("major", "minor", "patch")`, a table of names, a padding
+    # tuple) are part of the classifier: bound from their ASTs so that a table-driven classifier is evaluated, not refused
+    genv = _module_env(consts, used)
+    snapshot = repr(sorted((k, repr(v)) for k, v in genv.items()))
+    ip = Interp(_bind_helpers(genv, funcs or {}, [fn]), hooks={"Version": _model_version})
     rels = [r for n in LENGTHS for r in itertools.product((0, 1), repeat=n)]
     pres = (None, ("rc", 1), ("rc", 2))
     versions = [(r, p) for r in rels for p in pres]
     strs = [".".join(map(str, r)) + ("" if p is None else f"{p[0]}{p[1]}") for r, p in versions]
-    models = [_model_version(s) for s in strs]
+    # second grid: unequal growth
+    strs2 = [".".join(map(str, r)) + sfx for r in itertools.product((0, 1, 3), repeat=3) for sfx in ("", "rc1")]
     bad: list[str] = []
+    telling: list[str] = []
     undefined: dict[str, int] = {}
     n = 0
+    multi = 0
     params = [a.arg for a in fn.args.args]
-    names = ("major", "minor", "patch")
-    for i, cs in enumerate(strs):
-        for j, ps in enumerate(strs):
-            n += 1
-            ip.steps = 0
-            try:
-                got = ip.call_function(fn, {params[0]: cs, params[1]: ps})
-            except Raised as r:
-                got = f"<raises {r.name}>"
-            except TypeError:
-                got = "<raises TypeError>"
-            except IUnsupported as e:
-                raise AnchorError(f"C34.R2: `{fn.name}` uses a construct absint does not model: {e}")
-            c, p = models[i], models[j]
-            if not c > p:
-                want = "none"
-            else:
-                cr = (tuple(c.release) + (0, 0, 0))[:3]
-                pr = (tuple(p.release) + (0, 0, 0))[:3]
-                k = next((x for x in range(3) if cr[x] != pr[x]), None)
-                if k is None:
-                    undefined[str(got)] = undefined.get(str(got), 0) + 1
-                    if got == "none" or got not in names:
-                        bad.append(f"{cs} vs {ps}: greater, yet classified {got!r}")
-                    continue
-                want = names[k]
-            if got != want:
-                bad.append(f"detect_change_type({cs!r}, {ps!r}) = {got!r}, expected {want!r}")
-    return n, bad, undefined
+    for grid in (strs, strs2):
+        models = [_model_version(s) for s in grid]
+        for i, cs in enumerate(grid):
+            for j, ps in enumerate(grid):
+                n += 1
+                ip.steps = 0
+                try:
+                    got = ip.call_function(fn, {params[0]: cs, params[1]: ps})
+                except Raised as r:
+                    got = f"<raises {r.name}>"
+                except TypeError:
+                    got = "<raises TypeError>"
+                except IUnsupported as e:
+                    raise AnchorError(f"C34.R2: `{fn.name}` uses a construct absint does not model: {e}")
+                c, p = models[i], models[j]
+                if not c > p:
+                    want = "none"
+                    note = "the new version is not greater"
+                else:
+                    cr = (tuple(c.release) + (0, 0, 0))[:3]
+                    pr = (tuple(p.release) + (0, 0, 0))[:3]
+                    grown = [x for x in range(3) if cr[x] > pr[x]]
+                    if not grown:
+                        undefined[str(got)] = undefined.get(str(got), 0) + 1
+                        if got == "none" or got not in _NAMES:
+                            bad.append(f"{cs} vs {ps}: greater, yet classified {got!r}")
+                        continue
+                    multi += len(grown) > 1
+                    want = _NAMES[grown[0]]
+                    note = f"release components that grew: {', '.join(_NAMES[x] for x in grown)}; the most significant of them is {want}"
+                if got != want:
+                    # telling examples (several components grew, and the verdict names a lesser one) first
+                    txt = f"detect_change_type({cs!r}, {ps!r}) = {got!r}, expected {want!r} ({note})"
+                    (telling if c > p and len(grown) > 1 and got in _NAMES else bad).append(txt)
+    if repr(sorted((k, repr(v)) for k, v in genv.items() if not (isinstance(v, tuple) and v and v[0] == "__fn__"))) != snapshot:
+        raise AnchorError(f"C34.R2: `{fn.name}` changes a module-level constant in place; the pairs are no longer evaluated independently")
+    return n, telling + bad, undefined, multi
 
 
 # ------------------------------------------------------------------------------ evaluation
-def eval_rules(funcs: dict[str, ast.AST], consts: dict[str, ast.AST], vfuncs: dict[str, ast.AST]):
+def eval_rules(funcs: dict[str, ast.AST], consts: dict[str, ast.AST], vfuncs: dict[str, ast.AST], vconsts: dict[str, ast.AST] | None = None):
     sym = _Sym(funcs, consts)
     fail_p, fail_s, cases = finite_roundtrips(funcs, consts)
     # ---------------- pep440 -> semver -> pep440, per release length
@@ -517,10 +569,11 @@ def eval_rules(funcs: dict[str, ast.AST], consts: dict[str, ast.AST], vfuncs: di
     # ---------------- R2
     if DCT not in vfuncs:
         raise AnchorError(f"function `{DCT}` not found")
-    n, bad, undefined = classify_all(vfuncs[DCT], vfuncs)
-    yield ("ob", "C34.R2", "classification", f"detect_change_type is 'none' iff not greater, else names the first differing leading component — all {n} ordered pairs of the domain", not bad, vfuncs[DCT],
+    n, bad, undefined, multi = classify_all(vfuncs[DCT], vfuncs, vconsts)
+    yield ("ob", "C34.R2", "classification", f"detect_change_type is 'none' iff not greater, else names the most significant of the three leading release components that grew — all {n} ordered pairs of the domain ({multi} of them with two or three components growing at once)", not bad, vfuncs[DCT],
            f"{len(bad)} pairs wrong, e.g. " + "; ".join(bad[:3]))
     yield ("info", "classification_pairs", n)
+    yield ("info", "multi_growth_pairs", multi)
     yield ("info", "undefined_cases", undefined)
 
 
@@ -540,7 +593,7 @@ def run(chk) -> None:
     funcs = {n.name: n for n in cs.tree.body if isinstance(n, FuncNode)}
     vfuncs = {n.name: n for n in vs.tree.body if isinstance(n, FuncNode)}
     nob = 0
-    for item in eval_rules(funcs, module_consts(cs), vfuncs):
+    for item in eval_rules(funcs, module_consts(cs), vfuncs, module_consts(vs)):
         if item[0] == "info":
             chk.extra[item[1]] = item[2]
             if item[1] == "undefined_cases" and item[2]:
@@ -551,7 +604,8 @@ def run(chk) -> None:
         chk.ob(rule, desc, ok, m=cs if rule == "C34.R1" else vs, node=fn, fn=fn, instance=inst, reason=reason)
     chk.floor("C34.R1", "round-trip obligations (release lengths 1..4 + semver direction)", nob - 1, 5)
     chk.floor("C34.R1", "versions evaluated in the finite round trip", chk.extra.get("roundtrip_cases", 0), 800)
-    chk.floor("C34.R2", "ordered version pairs classified", chk.extra.get("classification_pairs", 0), 8000)
+    chk.floor("C34.R2", "ordered version pairs classified", chk.extra.get("classification_pairs", 0), 11000)
+    chk.floor("C34.R2", "classified pairs in which two or three release components grow at once", chk.extra.get("multi_growth_pairs", 0), 1500)
     chk.exhaustive = True
     # planted fixture
     fpath = Path(__file__).resolve().parents[2] / FIXTURE
@@ -561,7 +615,7 @@ def run(chk) -> None:
     _set_parents(tree)
     ff = {n.name: n for n in tree.body if isinstance(n, FuncNode)}
     bad: dict[str, int] = {}
-    for item in eval_rules(ff, _consts_of_tree(tree), ff):
+    for item in eval_rules(ff, _consts_of_tree(tree), ff, _consts_of_tree(tree)):
         if item[0] == "ob" and not item[4]:
             bad[item[1]] = bad.get(item[1], 0) + 1
     chk.floor("C34.R1", "planted defects reported in the fixture", bad.get("C34.R1", 0), 1)
@@ -584,6 +638,10 @@ _DCT_HEAD = ('def detect_change_type(current_version: str, previous_version: str
 _DCT_REL = '    current_release = (current.release + (0, 0, 0))[:3]\n    previous_release = (previous.release + (0, 0, 0))[:3]\n\n'
 _DCT_UNPACK = '    cur_major, cur_minor, cur_patch = _padded_release(current)\n    prev_major, prev_minor, prev_patch = _padded_release(previous)\n    current_release = (cur_major, cur_minor, cur_patch)\n    previous_release = (prev_major, prev_minor, prev_patch)\n\n'
 _PAD_HELPER = 'def _padded_release(version: Version) -> tuple[int, ...]:\n    return (version.release + (0, 0, 0))[:3]\n\n\n'
+_PAT = '    if current_release[2] > previous_release[2]:\n        return "patch"\n'
+_LADDER = _MAJ + _MIN + _PAT + '    return "minor"\n'
+_TABLE = '_COMPONENTS = ("major", "minor", "patch")\n\n\n'
+_GROWN = '    grown = [\n        name\n        for name, cur, prev in zip(_COMPONENTS, current_release, previous_release)\n        if cur > prev\n    ]\n'
 TWINS: list[Twin] = [
     # ---- R1 breaking
     Twin("regex wants two components", _CH, _RX, _RX.replace(_REL, "(\\d+\\.\\d+)"), "C34.R1"),
@@ -627,6 +685,21 @@ TWINS: list[Twin] = [
     Twin("short padding", _VE, "current_release = (current.release + (0, 0, 0))[:3]", "current_release = (current.release + (0,))[:3]", "C34.R2"),
     Twin("minor tested before major", _VE, _MAJ + _MIN, _MIN + _MAJ, "C34.R2"),
     Twin("ordering on the raw strings", _VE, "    if current <= previous:", "    if current_version <= previous_version:", "C34.R2"),
+    # ---- R2: table-driven classifiers over a module-level constant (the constant is bound from its AST)
+    Twin("grown components collected over a module constant, the LAST (least significant) one returned", _VE, _DCT_HEAD + _DCT_REL + _LADDER,
+         _TABLE + _DCT_HEAD + _DCT_REL + _GROWN + '    return grown.pop() if grown else "minor"\n', "C34.R2"),
+    Twin("loop over the table keeps overwriting the verdict: the last grown component wins", _VE, _DCT_HEAD + _DCT_REL + _LADDER,
+         _TABLE + _DCT_HEAD + _DCT_REL + '    change = "minor"\n    for name, cur, prev in zip(_COMPONENTS, current_release, previous_release):\n        if cur > prev:\n            change = name\n    return change\n', "C34.R2"),
+    Twin("table walked from the least significant end", _VE, _DCT_HEAD + _DCT_REL + _LADDER,
+         _TABLE + _DCT_HEAD + _DCT_REL + '    for idx in (2, 1, 0):\n        if current_release[idx] > previous_release[idx]:\n            return _COMPONENTS[idx]\n    return "minor"\n', "C34.R2"),
+    Twin("component chosen by the size of its growth", _VE, _DCT_HEAD + _DCT_REL + _LADDER,
+         _TABLE + _DCT_HEAD + _DCT_REL + '    deltas = [cur - prev for cur, prev in zip(current_release, previous_release)]\n    if max(deltas) <= 0:\n        return "minor"\n    return _COMPONENTS[deltas.index(max(deltas))]\n', "C34.R2"),
+    Twin("benign: grown components collected over a module constant, the first one returned", _VE, _DCT_HEAD + _DCT_REL + _LADDER,
+         _TABLE + _DCT_HEAD + _DCT_REL + _GROWN + '    return grown[0] if grown else "minor"\n', None),
+    Twin("benign: next() over the table", _VE, _DCT_HEAD + _DCT_REL + _LADDER,
+         _TABLE + _DCT_HEAD + _DCT_REL + '    return next((name for name, cur, prev in zip(_COMPONENTS, current_release, previous_release) if cur > prev), "minor")\n', None),
+    Twin("benign: loop over the table returns at the first grown component", _VE, _DCT_HEAD + _DCT_REL + _LADDER,
+         _TABLE + _DCT_HEAD + _DCT_REL + '    for name, cur, prev in zip(_COMPONENTS, current_release, previous_release):\n        if cur > prev:\n            return name\n    return "minor"\n', None),
     # ---- R2 benign
     Twin("benign: padding extracted into a helper, components unpacked, comparisons reversed", _VE, _DCT_HEAD + _DCT_REL + _MAJ + _MIN,
          _PAD_HELPER + _DCT_HEAD.replace("if current <= previous:", "if not (current > previous):") + _DCT_UNPACK
